@@ -276,7 +276,11 @@ class Gen:
             e = r.choice(['{}', '{"a": %s}' % self.int_expr(sc, 2), '{b: 2}',
                           '{"a": %s, b: %s}' % (self.t(self.int_expr(sc, 2)), self.t(self.int_expr(sc, 2))),
                           '{b: %s, "a": %s, "c": %s}' % (self.t(self.int_expr(sc, 2)), self.t("1"), self.t(self.int_expr(sc, 2))),
-                          '{"a": %s, "a": %s}' % (self.t("1"), self.t("2"))])
+                          '{"a": %s, "a": %s}' % (self.t("1"), self.t("2")),
+                          # entries on several lines, later keys starting in smaller columns than earlier ones: the values are
+                          # still evaluated in source order
+                          '{"c": %s,\n"a": %s,\n "b": %s}' % (self.t(self.int_expr(sc, 2)), self.t(self.int_expr(sc, 2)), self.t(self.int_expr(sc, 2))),
+                          '{\n    "b": %s, "a": %s,\n  "c": %s,\n"d": %s}' % (self.t(self.int_expr(sc, 2)), self.t("1"), self.t(self.int_expr(sc, 2)), self.t("2"))])
             sc.vars[name] = 'm'
             return "%s := %s" % (name, e)
         if k < 7:
@@ -419,6 +423,18 @@ class Gen:
             inner.vars[a] = 'i'
             inner.vars[b] = 'i'
             ls = sc.all('l')
+            if ls and r.chance(1, 3):
+                # the body grows (up to a bound) the very list the loop runs over: the loop sees the new items
+                lst = r.choice(ls)
+                self.st("for over growing list")
+                form = r.below(3)
+                if form == 1:
+                    del inner.vars[a]
+                body = self.block(inner, True, in_func, depth)
+                grow = "if len(%s) < %d { %s.append(%s) }" % (lst, 3 + r.below(5), lst,
+                                                              r.choice([b, "(%s + 1)" % b, "7"] + ([a] if form != 1 else [])))
+                head = "for %s in %s" % (b, lst) if form == 1 else "for %s, %s := range %s" % (a, b, lst)
+                return "%s { %s; %s }" % (head, grow, body[1:-1])
             src = r.choice(ls) if ls and r.chance(2, 3) else self.list_expr(sc)
             self.st("for range 2")
             return "for %s, %s := range %s %s" % (a, b, self.t(src), self.block(inner, True, in_func, depth))
